@@ -2,8 +2,8 @@
    jp.AppendString (escape classes from the generated jp_jMap) followed by the parser's
    readStr/readEscStr is the identity on every string of bytes below 0x80 - quotes, backslashes
    and control characters included - for both quote characters, in any context that follows;
-   and on EVERY byte string up to the replacement of invalid UTF-8 by U+FFFD (Jp/StrU.v: the
-   utf8.DecodeRune branch with its escapes for U+2028, U+2029 and invalid bytes).
+   and on EVERY byte string (Jp/StrU.v: the utf8.DecodeRune branch with its \u escapes for
+   U+2028, U+2029 and U+FFFD and the \x escape for a byte that is not UTF-8).
    The expression- and equation-level round trips (printed text parses, prints identically and
    evaluates as the ORIGINAL tree denotes in Jp/Expr.v) are decided by correspondence. *)
 From Coq Require Import Init.Byte ZArith List Bool.
@@ -18,10 +18,10 @@ Proof. exact string_roundtrip. Qed.
 Print Assumptions C14_string_roundtrip.
 
 
-(* every byte string, either quote: the printed literal reads back as the sanitized string *)
+(* every byte string, either quote: the printed literal reads back as the same string *)
 Theorem C14_string_roundtrip_all : forall s term k,
   (term = x22 \/ term = x27) ->
-  read_str term (enc_body_u (length s) s ++ term :: k) = Some (sanitize s, k).
+  read_str term (enc_body_u (length s) s ++ term :: k) = Some (s, k).
 Proof. exact string_roundtrip_all. Qed.
 
 (* on ASCII strings this is the function of the first theorem *)
@@ -31,7 +31,7 @@ Proof. intros s H. apply enc_body_u_ascii; [apply le_n | exact H]. Qed.
 Example C14_string_roundtrip_all_example :
   let s := [x61; x27; xc3; xa9; xff; xe2; x80; xa8; x5c; xf0; x9f; x98; x80] in
   read_str x27 (enc_body_u (length s) s ++ [x27; x5d]) =
-    Some ([x61; x27; xc3; xa9; xef; xbf; xbd; xe2; x80; xa8; x5c; xf0; x9f; x98; x80], [x5d]).
+    Some (s, [x5d]).
 Proof. vm_compute. reflexivity. Qed.
 
 Print Assumptions C14_string_roundtrip_all.
@@ -43,8 +43,7 @@ Print Assumptions C14_string_roundtrip_all.
    largest end, as the parser always does) (this includes the normal paths Locate and Walk hand out). The
    printed text - dot form for token keys by the regenerated jp_tokenMap, bracketed literal
    otherwise, [n], .* and [*], a descent's second dot left to a following token child or star -
-   parses back to the same fragments; a key printed in brackets comes back with invalid UTF-8
-   replaced. *)
+   parses back to the same fragments, keys and members byte for byte. *)
 Theorem C14_normal_path_round_trip : forall fs,
   Forall frag_ok fs ->      (* no empty union: Union{} prints [] which is no fragment *)
   parse_path (print_path fs) = Some (map norm_frag fs).
